@@ -107,6 +107,36 @@ pub fn cases(tier: &str, _seed: u64) -> Vec<Case> {
         if (class_of(&out) == "ok") != label_ok(l.as_bytes()) { c = c.fail("label-grammar", format!("label {:?}", l)); }
         v.push(c);
     }
+    // the class of the first, of the inner and of the last character crossed with every label length 1..=64: a rule that
+    // looks at a label's length AND at how it begins or ends (service labels `_name`, digit labels) shows; as text, with a
+    // neighbour, and through Label::new
+    for n in 1..=64usize {
+        for first in ["_", "a", "Z", "7", "-"] {
+            for inner in ["x", "-", "_", "0"] {
+                for last in ["z", "9", "_", "-"] {
+                    let mut l = String::from(first);
+                    while l.len() + 1 < n { l.push_str(inner); }
+                    if n >= 2 { l.push_str(last); }
+                    if l.len() != n { continue; }
+                    v.push(new_case(&l, "label-shape"));
+                    v.push(new_case(&format!("{}._udp.local", l), "label-shape"));
+                    let lb = l.clone().into_bytes();
+                    let out = guard(move || match Label::new(lb) { Ok(x) => format!("ok {}", text::hex(x.as_bytes())), Err(_) => "err".to_string() });
+                    let mut c = Case::new(format!("label.new {}", text::hex(l.as_bytes())), out.clone()).tag("label.new").tag("label-shape");
+                    if (class_of(&out) == "ok") != label_ok(l.as_bytes()) { c = c.fail("label-grammar", format!("label {:?}", l)); }
+                    v.push(c);
+                }
+            }
+        }
+    }
+    // names that look like something else: dotted quads and other all-digit names, reverse-lookup names, service names
+    // as registered with IANA, punycode, a version string, with and without the final dot
+    for s in ["1.1.1.1", "10.0.0.1", "192.168.1.20", "1.0.0.127", "127.0.0.1", "255.255.255.255", "256.1.1.1", "1.2.3", "1.2.3.4.5", "0.0.0.0", "8.8.8.8.in-addr.arpa", "1.0.0.127.in-addr.arpa",
+              "b.a.9.8.ip6.arpa", "_matter-commissionable01._udp.local", "_googlecast._tcp.local", "_services._dns-sd._udp.local", "_a234567890123456._tcp.local", "_a23456789012345._tcp.local",
+              "xn--bcher-kva.example", "xn--", "aa--a.example", "v1.2.3", "2001.db8", "localhost", "local", "0", "00", "0x10.1", "1e3.5"] {
+        v.push(new_case(s, "looks-like"));
+        v.push(new_case(&format!("{}.", s), "looks-like"));
+    }
     // every ASCII character (controls, space, punctuation, `*`, `@`, `~`, DEL ...) alone and in the first, an inner and
     // the last place of a label, as text and through Label::new; all bytes 0x80..0xFF through Label::new
     for ch in 0u8..128 {
